@@ -14,6 +14,18 @@ CHECKS = {
         design_ref="DESIGN.md 5 C17",
         note=NOTE_COMMON + " Rationals with denominator <= 4096 are recovered exactly from floats; inexact traces are skipped and counted.",
     ),
+    "C18": dict(
+        text=("TLC explores ChunksImpl (validate_chunks dispatch, fill_in_chunk_sizes, the round-robin growth loop of "
+              "_auto_chunks one iteration per step, equal_sized_chunks) for every shape in (1..4)^{1,2} (thorough: rank 3), every "
+              "per-dimension specification (auto, -1, each int, explicit tuples incl. a mismatching one) and 7-11 element "
+              "limits, and checks the Chunks.tla predicates (partition, limit when a valid chunking exists, equal-sized, "
+              "contiguous ranges); every enumerated call plus seeded random larger calls is executed on the real functions "
+              "and the returned values are validated by ChunksTrace.tla; the model's predicted results are compared with the "
+              "code's (model_drift)."),
+        technique="TLA+ model of the chunking algorithms checked with TLC; TLC-enumerated calls executed on the real functions; TLC trace validation of returned values",
+        design_ref="DESIGN.md 5 C18",
+        note=NOTE_COMMON + " Byte-derived 'auto' limits are replaced by explicit element limits; zero-length dimensions are not enumerated.",
+    ),
 }
 
 NOT_APPLICABLE = {
